@@ -1,17 +1,688 @@
 /-
-C12 — model fitting is self-consistent.  (stub; theorems are being added)
+C12 — model fitting is self-consistent.
+
+Everything around the numerical optimiser that is logic or algebra (the optimiser itself, scipy `least_squares`,
+is checked per fit by the harness):
+
+* A. the reported error (`base_model.py` l.267, `virial.py`): non-negative, zero iff the fitted model passes through
+     every point, unit-free; data generated exactly from the model is a global minimiser with error 0;
+* B. `attempts[errors.index(min(errors))]` (`modelisotherm.py` `guess`): the first attempt with the smallest error;
+* C. `initial_guess_bounds`: clamped guesses respect the bounds in force;
+* D. branch selection;
+* E. unit covariance of the generated model equations and of the least-squares problem;
+* F. non-vacuity examples.
+
+Statements of A are over an arbitrary ordered field, B/C over an arbitrary linear order, E over ℝ about the
+GENERATED functions `PgVerif.Gen.R.*`.
 -/
 import PgVerif.Model.Fit
+import PgVerif.Gen.ModelsR
 import Mathlib.Algebra.Order.Field.Rat
 import Mathlib.Tactic
 
 namespace PgVerif.Props.C12
 open PgVerif.Model.Fit
 
+/-! ## helper facts -/
+
+section helpersField
+variable {α : Type} [Field α]
+
+lemma sumSq_nil : sumSq ([] : List α) = 0 := by simp [sumSq]
+
+lemma sumSq_cons (r : α) (rs : List α) : sumSq (r :: rs) = r * r + sumSq rs := by simp [sumSq]
+
+lemma sumSq_map_mul (k : α) (rs : List α) : sumSq (rs.map (k * ·)) = k * k * sumSq rs := by
+  induction rs with
+  | nil => simp [sumSq]
+  | cons r rs ih => rw [List.map_cons, sumSq_cons, sumSq_cons, ih]; ring
+
+end helpersField
+
+section helpers
+variable {α : Type} [Field α] [LinearOrder α] [IsStrictOrderedRing α]
+
+lemma sumSq_nonneg (rs : List α) : 0 ≤ sumSq rs := by
+  induction rs with
+  | nil => simp [sumSq]
+  | cons r rs ih => rw [sumSq_cons]; exact add_nonneg (mul_self_nonneg r) ih
+
+lemma sumSq_eq_zero_iff (rs : List α) : sumSq rs = 0 ↔ ∀ r ∈ rs, r = 0 := by
+  induction rs with
+  | nil => simp [sumSq]
+  | cons r rs ih =>
+    rw [sumSq_cons, add_eq_zero_iff_of_nonneg (mul_self_nonneg r) (sumSq_nonneg rs), ih, mul_self_eq_zero]
+    simp
+
+lemma length_pos_cast {rs : List α} (h : rs ≠ []) : (0 : α) < (rs.length : α) := by
+  have : 0 < rs.length := List.length_pos_iff.mpr h
+  exact_mod_cast this
+
+end helpers
+
+section bestHelpers
+variable {α : Type} [LinearOrder α]
+
+/-- invariant of the scan: either the incumbent survives (and is ≤ everything scanned), or the result is the first
+strict improvement that is minimal in the scanned part -/
+lemma bestIdxAux_spec (es : List α) : ∀ (i bi : Nat) (be : α),
+    (bestIdxAux es i bi be = bi ∧ ∀ k (hk : k < es.length), be ≤ es[k]) ∨
+    (∃ k, ∃ hk : k < es.length, bestIdxAux es i bi be = i + k ∧ es[k] < be ∧
+        (∀ j (hj : j < es.length), es[k] ≤ es[j]) ∧ ∀ j (hj : j < k), es[k] < es[j]'(hj.trans hk)) := by
+  induction es with
+  | nil => intro i bi be; left; simp [bestIdxAux]
+  | cons e es ih =>
+    intro i bi be
+    by_cases h : e < be
+    · have hr : bestIdxAux (e :: es) i bi be = bestIdxAux es (i + 1) i e := by simp [bestIdxAux, h]
+      rw [hr]
+      rcases ih (i + 1) i e with ⟨h1, h2⟩ | ⟨k, hk, h1, h2, h3, h4⟩
+      · right
+        refine ⟨0, by simp, by simpa using h1, by simpa using h, ?_, ?_⟩
+        · intro j hj
+          cases j with
+          | zero => simp
+          | succ j => simpa using h2 j (by simpa using hj)
+        · intro j hj; omega
+      · right
+        refine ⟨k + 1, by simpa using hk, by rw [h1]; ring, by simpa using h2.trans h, ?_, ?_⟩
+        · intro j hj
+          cases j with
+          | zero => simpa using h2.le
+          | succ j => simpa using h3 j (by simpa using hj)
+        · intro j hj
+          cases j with
+          | zero => simpa using h2
+          | succ j => simpa using h4 j (by omega)
+    · have hr : bestIdxAux (e :: es) i bi be = bestIdxAux es (i + 1) bi be := by simp [bestIdxAux, h]
+      rw [hr]
+      have h' : be ≤ e := not_lt.mp h
+      rcases ih (i + 1) bi be with ⟨h1, h2⟩ | ⟨k, hk, h1, h2, h3, h4⟩
+      · left
+        refine ⟨h1, ?_⟩
+        intro j hj
+        cases j with
+        | zero => simpa using h'
+        | succ j => simpa using h2 j (by simpa using hj)
+      · right
+        refine ⟨k + 1, by simpa using hk, by rw [h1]; ring, by simpa using h2, ?_, ?_⟩
+        · intro j hj
+          cases j with
+          | zero => simpa using (h2.trans_le h').le
+          | succ j => simpa using h3 j (by simpa using hj)
+        · intro j hj
+          cases j with
+          | zero => simpa using h2.trans_le h'
+          | succ j => simpa using h4 j (by omega)
+
+end bestHelpers
+
+/-! ## B. best of a list -/
+
+section best
+variable {α : Type} [LinearOrder α]
+
+/-- `errors.index(min(errors))` of an empty list of attempts: nothing is returned -/
+theorem bestIdx_nil : bestIdx ([] : List α) = none := rfl
+
+/-- the attempt returned has the smallest reported error, and it is the FIRST attempt with that error
+(Python `errors.index(min(errors))`) -/
+theorem bestIdx_spec (es : List α) (hne : es ≠ []) :
+    ∃ i, bestIdx es = some i ∧ ∃ hi : i < es.length,
+      (∀ j (hj : j < es.length), es[i] ≤ es[j]) ∧ ∀ j (hj : j < i), es[i] < es[j]'(hj.trans hi) := by
+  cases es with
+  | nil => exact absurd rfl hne
+  | cons e es =>
+    refine ⟨bestIdxAux es 1 0 e, rfl, ?_⟩
+    rcases bestIdxAux_spec es 1 0 e with ⟨h1, h2⟩ | ⟨k, hk, h1, h2, h3, h4⟩
+    · simp only [h1]
+      refine ⟨by simp, ?_, ?_⟩
+      · intro j hj
+        cases j with
+        | zero => simp
+        | succ j => simpa using h2 j (by simpa using hj)
+      · intro j hj; omega
+    · have hk1 : 1 + k = k + 1 := by ring
+      simp only [h1, hk1]
+      refine ⟨by simpa using hk, ?_, ?_⟩
+      · intro j hj
+        cases j with
+        | zero => simpa using h2.le
+        | succ j => simpa using h3 j (by simpa using hj)
+      · intro j hj
+        cases j with
+        | zero => simpa using h2
+        | succ j => simpa using h4 j (by omega)
+
+/-- an index that is minimal and first-minimal is unique: the model returned is determined by the list of errors -/
+theorem bestIdx_unique (es : List α) (i i' : Nat) (hi : i < es.length) (hi' : i' < es.length)
+    (hmin : ∀ j (hj : j < es.length), es[i] ≤ es[j]) (hfirst : ∀ j (hj : j < i), es[i] < es[j]'(hj.trans hi))
+    (hmin' : ∀ j (hj : j < es.length), es[i'] ≤ es[j]) (hfirst' : ∀ j (hj : j < i'), es[i'] < es[j]'(hj.trans hi')) :
+    i = i' := by
+  rcases lt_trichotomy i i' with h | h | h
+  · exact absurd (hfirst' i h) (not_lt.mpr (hmin i' hi'))
+  · exact h
+  · exact absurd (hfirst i' h) (not_lt.mpr (hmin' i hi))
+
+/-- complete characterisation of the returned index -/
+theorem bestIdx_eq_some_iff (es : List α) (i : Nat) :
+    bestIdx es = some i ↔ ∃ hi : i < es.length,
+      (∀ j (hj : j < es.length), es[i] ≤ es[j]) ∧ ∀ j (hj : j < i), es[i] < es[j]'(hj.trans hi) := by
+  constructor
+  · intro h
+    have hne : es ≠ [] := by rintro rfl; simp [bestIdx] at h
+    obtain ⟨i0, h0, hi0, h1, h2⟩ := bestIdx_spec es hne
+    rw [h0] at h
+    obtain rfl : i0 = i := Option.some.inj h
+    exact ⟨hi0, h1, h2⟩
+  · rintro ⟨hi, h1, h2⟩
+    have hne : es ≠ [] := by rintro rfl; simp at hi
+    obtain ⟨i0, h0, hi0, h1', h2'⟩ := bestIdx_spec es hne
+    rw [h0, bestIdx_unique es i0 i hi0 hi h1' h2' h1 h2]
+
+/-- something is returned iff at least one attempt converged -/
+theorem bestIdx_isSome_iff (es : List α) : (bestIdx es).isSome ↔ es ≠ [] := by
+  cases es <;> simp [bestIdx]
+
+end best
+
+/-! ## A. the reported error -/
+
+section error
+variable {α : Type} [Field α] [LinearOrder α] [IsStrictOrderedRing α]
+
+/-- the mean of squared residuals is never negative (also for the empty list, where it is `0/0 = 0`) -/
+theorem mse_nonneg (rs : List α) : 0 ≤ mse rs :=
+  div_nonneg (sumSq_nonneg rs) (Nat.cast_nonneg _)
+
+/-- the (square of the) reported error is never negative, whatever the range -/
+theorem rmseSq_nonneg (rs : List α) (range : α) : 0 ≤ rmseSq rs range :=
+  div_nonneg (mse_nonneg rs) (mul_self_nonneg range)
+
+theorem rmseSqVirial_nonneg (rs : List α) : 0 ≤ rmseSqVirial rs := mse_nonneg rs
+
+/-- for at least one data point: mean squared residual zero iff every residual is zero.
+The guard `rs ≠ []` excludes the `0/0` point. -/
+theorem mse_eq_zero_iff (rs : List α) (hne : rs ≠ []) : mse rs = 0 ↔ ∀ r ∈ rs, r = 0 := by
+  unfold mse
+  rw [div_eq_zero_iff, sumSq_eq_zero_iff]
+  constructor
+  · rintro (h | h)
+    · exact h
+    · exact absurd h (length_pos_cast hne).ne'
+  · exact fun h => Or.inl h
+
+/-- a reported error of zero means the fitted model passes through every data point (and conversely).
+Guards: at least one point, and a non-degenerate model range (otherwise the Python value is `x/0`). -/
+theorem rmseSq_eq_zero_iff (rs : List α) (range : α) (hne : rs ≠ []) (hr : range ≠ 0) :
+    rmseSq rs range = 0 ↔ ∀ r ∈ rs, r = 0 := by
+  unfold rmseSq
+  rw [div_eq_zero_iff, mse_eq_zero_iff rs hne]
+  constructor
+  · rintro (h | h)
+    · exact h
+    · exact absurd h (mul_ne_zero hr hr)
+  · exact fun h => Or.inl h
+
+/-- the same for the Virial fit (no normalisation by a range) -/
+theorem rmseSqVirial_eq_zero_iff (rs : List α) (hne : rs ≠ []) :
+    rmseSqVirial rs = 0 ↔ ∀ r ∈ rs, r = 0 := mse_eq_zero_iff rs hne
+
+/-- a change of loading unit (all residuals and the model range multiplied by the same `k ≠ 0`) leaves the reported
+error unchanged: the documented normalisation makes it unit-free.  (No guard on `range` or `rs` is needed: in the
+degenerate cases both sides are the same `x/0`.) -/
+theorem rmseSq_scale (rs : List α) (range k : α) (hk : k ≠ 0) :
+    rmseSq (rs.map (k * ·)) (k * range) = rmseSq rs range := by
+  unfold rmseSq mse
+  rw [sumSq_map_mul, List.length_map]
+  have e1 : k * k * sumSq rs / (rs.length : α) = k * k * (sumSq rs / (rs.length : α)) := by ring
+  have e2 : k * range * (k * range) = k * k * (range * range) := by ring
+  rw [e1, e2, mul_div_mul_left _ _ (mul_ne_zero hk hk)]
+
+/-- the Virial error is NOT normalised: a change of unit by `k` multiplies its square by `k²` -/
+theorem rmseSqVirial_scale (rs : List α) (k : α) :
+    rmseSqVirial (rs.map (k * ·)) = k * k * rmseSqVirial rs := by
+  unfold rmseSqVirial mse
+  rw [sumSq_map_mul, List.length_map]; ring
+
+/-- on data generated exactly from the model (all residuals vanish at `θ₀`) the generating parameters minimise the
+least-squares objective, with objective value 0; conversely any parameter vector with objective 0 reproduces every
+data point. `Θ` is any type of parameter vectors, `res` any residual function. -/
+theorem exact_data_generator_is_global_minimiser {Θ : Type} (res : Θ → List α) (θ₀ : Θ)
+    (h0 : ∀ r ∈ res θ₀, r = 0) :
+    (∀ θ, sumSq (res θ₀) ≤ sumSq (res θ)) ∧ sumSq (res θ₀) = 0 ∧
+      (∀ θ, sumSq (res θ) = 0 → ∀ r ∈ res θ, r = 0) ∧
+      (∀ θ, sumSq (res θ) ≤ sumSq (res θ₀) → ∀ r ∈ res θ, r = 0) := by
+  have hz : sumSq (res θ₀) = 0 := (sumSq_eq_zero_iff _).mpr h0
+  refine ⟨fun θ => hz ▸ sumSq_nonneg _, hz, fun θ h => (sumSq_eq_zero_iff _).mp h, fun θ h => ?_⟩
+  exact (sumSq_eq_zero_iff _).mp (le_antisymm (hz ▸ h) (sumSq_nonneg _))
+
+/-- the reported error of the exact generator is 0 -/
+theorem exact_data_rmseSq_zero (rs : List α) (range : α) (h0 : ∀ r ∈ rs, r = 0) : rmseSq rs range = 0 := by
+  unfold rmseSq mse; rw [(sumSq_eq_zero_iff rs).mpr h0]; simp
+
+end error
+
+/-! ## C. bounds -/
+
+section bounds
+variable {α : Type} [LinearOrder α]
+
+/-- a clamped value respects the bounds in force, provided the bounds are consistent (`lo ≤ hi` when both are finite) -/
+theorem clamp_inBounds (lo hi : Option α) (v : α) (hlh : ∀ l h, lo = some l → hi = some h → l ≤ h) :
+    inBounds lo hi (clamp lo hi v) := by
+  unfold inBounds clamp
+  cases lo with
+  | none =>
+    cases hi with
+    | none => simp
+    | some h =>
+      simp only [reduceCtorEq, false_imp_iff, implies_true, Option.some.injEq, forall_eq', true_and]
+      split_ifs with h1
+      · exact le_refl _
+      · exact not_lt.mp h1
+  | some l =>
+    cases hi with
+    | none =>
+      simp only [Option.some.injEq, forall_eq', reduceCtorEq, false_imp_iff, implies_true, and_true]
+      split_ifs with h1
+      · exact le_refl _
+      · exact not_lt.mp h1
+    | some h =>
+      have hl : l ≤ h := hlh l h rfl rfl
+      simp only [Option.some.injEq, forall_eq']
+      split_ifs with h1 h2
+      · exact ⟨hl, le_refl _⟩
+      · exact ⟨le_refl _, hl⟩
+      · exact ⟨not_lt.mp h2, not_lt.mp h1⟩
+
 /-- a guess inside its bounds is left alone by `initial_guess_bounds` -/
-theorem clamp_of_inBounds (lo hi : Option ℚ) (v : ℚ) (h : inBounds lo hi v) : clamp lo hi v = v := by
+theorem clamp_of_inBounds (lo hi : Option α) (v : α) (h : inBounds lo hi v) : clamp lo hi v = v := by
   obtain ⟨h1, h2⟩ := h
   unfold clamp
   cases lo <;> cases hi <;> simp_all [not_lt.mpr]
+
+/-- clamping twice is clamping once (consistent bounds) -/
+theorem clamp_idempotent (lo hi : Option α) (v : α) (hlh : ∀ l h, lo = some l → hi = some h → l ≤ h) :
+    clamp lo hi (clamp lo hi v) = clamp lo hi v :=
+  clamp_of_inBounds lo hi _ (clamp_inBounds lo hi v hlh)
+
+/-- `clamp` fixes exactly the values inside the bounds (consistent bounds) -/
+theorem clamp_eq_self_iff (lo hi : Option α) (v : α) (hlh : ∀ l h, lo = some l → hi = some h → l ≤ h) :
+    clamp lo hi v = v ↔ inBounds lo hi v :=
+  ⟨fun h => h ▸ clamp_inBounds lo hi v hlh, clamp_of_inBounds lo hi v⟩
+
+theorem clampGuess_length (bounds : List (Option α × Option α)) (guess : List α) :
+    (clampGuess bounds guess).length = min bounds.length guess.length := by
+  unfold clampGuess; exact List.length_zipWith
+
+/-- one bound pair per parameter: as many clamped guesses as guesses -/
+theorem clampGuess_length_eq (bounds : List (Option α × Option α)) (guess : List α)
+    (hlen : bounds.length = guess.length) : (clampGuess bounds guess).length = guess.length := by
+  rw [clampGuess_length, hlen, min_self]
+
+/-- every clamped guess respects its own bounds -/
+theorem clampGuess_inBounds (bounds : List (Option α × Option α)) (guess : List α)
+    (hlh : ∀ bd ∈ bounds, ∀ l h, bd.1 = some l → bd.2 = some h → l ≤ h)
+    (i : Nat) (hi : i < (clampGuess bounds guess).length) :
+    inBounds (bounds[i]'(by rw [clampGuess_length] at hi; omega)).1
+             (bounds[i]'(by rw [clampGuess_length] at hi; omega)).2 ((clampGuess bounds guess)[i]) := by
+  have hb : i < bounds.length := by rw [clampGuess_length] at hi; omega
+  have e : (clampGuess bounds guess)[i] = clamp (bounds[i]).1 (bounds[i]).2
+      (guess[i]'(by rw [clampGuess_length] at hi; omega)) := by
+    exact List.getElem_zipWith
+  rw [e]
+  exact clamp_inBounds _ _ _ (hlh _ (List.getElem_mem hb))
+
+/-- guesses already inside their bounds are returned unchanged -/
+theorem clampGuess_of_inBounds (bounds : List (Option α × Option α)) (guess : List α)
+    (hlen : bounds.length = guess.length)
+    (hin : ∀ i (hb : i < bounds.length) (hg : i < guess.length), inBounds (bounds[i]).1 (bounds[i]).2 guess[i]) :
+    clampGuess bounds guess = guess := by
+  apply List.ext_getElem (clampGuess_length_eq bounds guess hlen)
+  intro i h1 h2
+  have hb : i < bounds.length := by omega
+  have e : (clampGuess bounds guess)[i] = clamp (bounds[i]).1 (bounds[i]).2 guess[i] := by
+    exact List.getElem_zipWith
+  rw [e]
+  exact clamp_of_inBounds _ _ _ (hin i hb h2)
+
+end bounds
+
+/-! ## D. branch selection -/
+
+section branch
+variable {β : Type}
+
+/-- exactly the rows of the requested branch are used -/
+theorem selectBranch_spec (rows : List (β × Nat)) (b : Nat) (x : β) :
+    x ∈ selectBranch rows b ↔ (x, b) ∈ rows := by
+  unfold selectBranch
+  simp only [List.mem_map, List.mem_filter, decide_eq_true_eq]
+  constructor
+  · rintro ⟨⟨y, c⟩, ⟨hm, hc⟩, rfl⟩
+    simp only at hc
+    subst hc; exact hm
+  · intro h; exact ⟨(x, b), ⟨h, rfl⟩, rfl⟩
+
+/-- the order of the rows is kept -/
+theorem selectBranch_sublist (rows : List (β × Nat)) (b : Nat) :
+    List.Sublist (selectBranch rows b) (rows.map (·.1)) := by
+  unfold selectBranch
+  exact List.filter_sublist.map _
+
+/-- adsorption rows and desorption rows partition the data -/
+theorem selectBranch_partition (rows : List (β × Nat)) (h01 : ∀ r ∈ rows, r.2 = 0 ∨ r.2 = 1) :
+    (selectBranch rows 0).length + (selectBranch rows 1).length = rows.length := by
+  unfold selectBranch
+  induction rows with
+  | nil => simp
+  | cons r rows ih =>
+    have ih' := ih (fun r' hr' => h01 r' (List.mem_cons_of_mem _ hr'))
+    simp only [List.length_map] at ih' ⊢
+    rcases h01 r (List.mem_cons_self) with h | h
+    · simp [h]; omega
+    · simp [h]; omega
+
+/-- rows of another branch never influence the result: deleting them changes nothing -/
+theorem selectBranch_ignores_other (rows : List (β × Nat)) (b : Nat) :
+    selectBranch (rows.filter (fun r => r.2 = b)) b = selectBranch rows b := by
+  unfold selectBranch; rw [List.filter_filter]; simp
+
+/-- a data set without rows of the requested branch gives nothing -/
+theorem selectBranch_other_nil (rows : List (β × Nat)) (b : Nat) (h : ∀ r ∈ rows, r.2 ≠ b) :
+    selectBranch rows b = [] := by
+  unfold selectBranch
+  simp only [List.map_eq_nil_iff, List.filter_eq_nil_iff, decide_eq_true_eq]
+  exact h
+
+/-- inserting rows of another branch anywhere does not change the selection -/
+theorem selectBranch_append (r1 r2 : List (β × Nat)) (b : Nat) :
+    selectBranch (r1 ++ r2) b = selectBranch r1 b ++ selectBranch r2 b := by
+  unfold selectBranch; simp
+
+end branch
+
+/-! ## E. unit covariance
+
+Pressure unit factor `a` (`p' = a·p`), loading unit factor `b` (`n' = b·n`).  Each theorem says: the generated model
+equation evaluated with the transformed parameters at the transformed pressure is `b` times the original loading.
+Only `a ≠ 0` / `b ≠ 0` is needed for the rational models (no division-by-zero convention is used: the guards make the
+cancellations genuine); Freundlich needs `0 < a`, `0 ≤ p` for `rpow`. -/
+
+section units
+open PgVerif.Gen.R
+
+theorem henry_units (K a b p : ℝ) (ha : a ≠ 0) :
+    Henry_loading (b * K / a) (a * p) = b * Henry_loading K p := by
+  unfold Henry_loading; field_simp
+
+theorem langmuir_units (K n_m a b p : ℝ) (ha : a ≠ 0) :
+    Langmuir_loading (K / a) (b * n_m) (a * p) = b * Langmuir_loading K n_m p := by
+  unfold Langmuir_loading
+  have e : K / a * (a * p) = K * p := by field_simp
+  simp only [e]; ring
+
+theorem dslangmuir_units (n_m1 K1 n_m2 K2 a b p : ℝ) (ha : a ≠ 0) :
+    DSLangmuir_loading (b * n_m1) (K1 / a) (b * n_m2) (K2 / a) (a * p)
+      = b * DSLangmuir_loading n_m1 K1 n_m2 K2 p := by
+  unfold DSLangmuir_loading
+  have e1 : K1 / a * (a * p) = K1 * p := by field_simp
+  have e2 : K2 / a * (a * p) = K2 * p := by field_simp
+  simp only [e1, e2]; ring
+
+theorem tslangmuir_units (n_m1 n_m2 n_m3 K1 K2 K3 a b p : ℝ) (ha : a ≠ 0) :
+    TSLangmuir_loading (b * n_m1) (b * n_m2) (b * n_m3) (K1 / a) (K2 / a) (K3 / a) (a * p)
+      = b * TSLangmuir_loading n_m1 n_m2 n_m3 K1 K2 K3 p := by
+  unfold TSLangmuir_loading
+  have e1 : K1 / a * (a * p) = K1 * p := by field_simp
+  have e2 : K2 / a * (a * p) = K2 * p := by field_simp
+  have e3 : K3 / a * (a * p) = K3 * p := by field_simp
+  simp only [e1, e2, e3]; ring
+
+/-- Toth: `K·p` is invariant, so the `rpow` terms are literally unchanged (no sign guard needed) -/
+theorem toth_units (n_m K t a b p : ℝ) (ha : a ≠ 0) :
+    Toth_loading (b * n_m) (K / a) t (a * p) = b * Toth_loading n_m K t p := by
+  unfold Toth_loading
+  have e : K / a * (a * p) = K * p := by field_simp
+  simp only [e]; ring
+
+/-- Freundlich `n = K p^(1/m)`: `K' = b K / a^(1/m)`; `0 < a`, `0 ≤ p` are what `(a p)^(1/m) = a^(1/m) p^(1/m)` needs -/
+theorem freundlich_units (K m a b p : ℝ) (ha : 0 < a) (hp : 0 ≤ p) :
+    Freundlich_loading (b * K / a ^ (1 / m)) m (a * p) = b * Freundlich_loading K m p := by
+  unfold Freundlich_loading
+  simp only [Real.rpow_eq_pow]
+  rw [Real.mul_rpow ha.le hp]
+  have h : a ^ (1 / m) ≠ 0 := (Real.rpow_pos_of_pos ha _).ne'
+  field_simp
+
+theorem temkin_units (n_m K tht a b p : ℝ) (ha : a ≠ 0) :
+    TemkinApprox_loading (b * n_m) (K / a) tht (a * p) = b * TemkinApprox_loading n_m K tht p := by
+  unfold TemkinApprox_loading
+  have e : K / a * (a * p) = K * p := by field_simp
+  simp only [e]; ring
+
+/-- Jensen–Seaton `n = K p / (1 + (K p / (A (1 + B p)))^c)^(1/c)`: `K' = b K / a`, `A' = b A`, `B' = B / a` -/
+theorem jensen_seaton_units (K A B c a b p : ℝ) (ha : a ≠ 0) (hb : b ≠ 0) :
+    JensenSeaton_loading (b * K / a) (b * A) (B / a) c (a * p) = b * JensenSeaton_loading K A B c p := by
+  unfold JensenSeaton_loading
+  have e1 : b * K / a * (a * p) = b * (K * p) := by field_simp
+  have e2 : B / a * (a * p) = B * p := by field_simp
+  have e3 : b * (K * p) / (b * A * (1 + B * p)) = K * p / (A * (1 + B * p)) := by
+    rw [mul_assoc b A, mul_div_mul_left _ _ hb]
+  simp only [e1, e2, e3]; ring
+
+/-- BET: both `C` and `N` multiply the pressure -/
+theorem bet_units (n_m C N a b p : ℝ) (ha : a ≠ 0) :
+    BET_loading (b * n_m) (C / a) (N / a) (a * p) = b * BET_loading n_m C N p := by
+  unfold BET_loading
+  have e1 : N / a * (a * p) = N * p := by field_simp
+  have e2 : C / a * (a * p) = C * p := by field_simp
+  have e3 : b * n_m * (C / a) * (a * p) = b * (n_m * C * p) := by field_simp
+  simp only [e1, e2, e3]; ring
+
+/-- GAB: only `K` multiplies the pressure, `C` is dimensionless -/
+theorem gab_units (n_m C K a b p : ℝ) (ha : a ≠ 0) :
+    GAB_loading (b * n_m) C (K / a) (a * p) = b * GAB_loading n_m C K p := by
+  unfold GAB_loading
+  have e : K / a * (a * p) = K * p := by field_simp
+  simp only [e]; ring
+
+theorem quadratic_units (n_m Ka Kb a b p : ℝ) (ha : a ≠ 0) :
+    Quadratic_loading (b * n_m) (Ka / a) (Kb / a ^ 2) (a * p) = b * Quadratic_loading n_m Ka Kb p := by
+  unfold Quadratic_loading
+  have e1 : Ka / a * (a * p) = Ka * p := by field_simp
+  have e2 : Kb / a ^ 2 * (a * p) ^ 2 = Kb * p ^ 2 := by field_simp
+  have e3 : 2 * (Kb / a ^ 2) * (a * p) = 2 * Kb * p / a := by field_simp
+  have e4 : b * n_m * (Ka / a + 2 * Kb * p / a) * (a * p) = b * (n_m * (Ka + 2 * Kb * p) * p) := by field_simp
+  simp only [e1, e2, e3, e4]; ring
+
+/-- DR / DA work on relative pressure (dimensionless): only the loading unit acts -/
+theorem dr_units (n_m e A b p : ℝ) : DR_loading (b * n_m) e A p = b * DR_loading n_m e A p := by
+  unfold DR_loading; ring
+
+theorem da_units (n_m e m A b p : ℝ) : DA_loading (b * n_m) e m A p = b * DA_loading n_m e m A p := by
+  unfold DA_loading; ring
+
+/-! the pressure-calculating direction (`calculates == "pressure"`: residuals are pressures, factor `a`).
+`a ≠ 0`, `b ≠ 0` make the cancellations genuine; the remaining denominators (`K`, `n_m - n`, …) are the same on both
+sides of each equation. -/
+
+theorem henry_pressure_units (K a b n : ℝ) (ha : a ≠ 0) (hK : K ≠ 0) (hb : b ≠ 0) :
+    Henry_pressure (b * K / a) (b * n) = a * Henry_pressure K n := by
+  unfold Henry_pressure; field_simp
+
+theorem langmuir_pressure_units (K n_m a b n : ℝ) (ha : a ≠ 0) (hb : b ≠ 0) :
+    Langmuir_pressure (K / a) (b * n_m) (b * n) = a * Langmuir_pressure K n_m n := by
+  unfold Langmuir_pressure
+  have e : b * n_m - b * n = b * (n_m - n) := by ring
+  rw [e]; field_simp
+
+theorem toth_pressure_units (n_m K t a b n : ℝ) (ha : a ≠ 0) (hb : b ≠ 0) :
+    Toth_pressure (b * n_m) (K / a) t (b * n) = a * Toth_pressure n_m K t n := by
+  unfold Toth_pressure
+  have e1 : b * n / (b * n_m) = n / n_m := mul_div_mul_left _ _ hb
+  have e2 : b * n / (b * n_m * (K / a)) = a * (n / (n_m * K)) := by field_simp
+  simp only [e1, e2]; ring
+
+/-- Freundlich inverse `p = (n / K)^m`: needs `0 ≤ n / K` and `m ≠ 0` for `(a^(1/m) x)^m = a x^m` -/
+theorem freundlich_pressure_units (K m a b n : ℝ) (ha : 0 < a) (hb : b ≠ 0) (hm : m ≠ 0) (hnK : 0 ≤ n / K) :
+    Freundlich_pressure (b * K / a ^ (1 / m)) m (b * n) = a * Freundlich_pressure K m n := by
+  unfold Freundlich_pressure
+  simp only [Real.rpow_eq_pow]
+  have h : a ^ (1 / m) ≠ 0 := (Real.rpow_pos_of_pos ha _).ne'
+  have e : b * n / (b * K / a ^ (1 / m)) = a ^ (1 / m) * (n / K) := by field_simp
+  rw [e, Real.mul_rpow (Real.rpow_pos_of_pos ha _).le hnK, ← Real.rpow_mul ha.le, one_div_mul_cancel hm,
+    Real.rpow_one]
+
+/-- FHVST (pressure model): coverage `n / n_m` is invariant, the prefactor `n_m / K` carries the units -/
+theorem fhvst_units (n_m K a1v a b n : ℝ) (ha : a ≠ 0) (hb : b ≠ 0) :
+    FHVST_pressure (b * n_m) (b * K / a) a1v (b * n) = a * FHVST_pressure n_m K a1v n := by
+  unfold FHVST_pressure
+  have e1 : b * n / (b * n_m) = n / n_m := mul_div_mul_left _ _ hb
+  have e2 : b * n_m / (b * K / a) = a * (n_m / K) := by field_simp
+  simp only [e1, e2]; ring
+
+theorem wvst_units (n_m K L1v Lv1 a b n : ℝ) (ha : a ≠ 0) (hb : b ≠ 0) :
+    WVST_pressure (b * n_m) (b * K / a) L1v Lv1 (b * n) = a * WVST_pressure n_m K L1v Lv1 n := by
+  unfold WVST_pressure
+  have e1 : b * n / (b * n_m) = n / n_m := mul_div_mul_left _ _ hb
+  have e2 : b * n_m / (b * K / a) = a * (n_m / K) := by field_simp
+  simp only [e1, e2]; ring
+
+/-- Virial (pressure model) `p = n exp(-ln K + A n + B n² + C n³)`: `K' = b K / a`, `A' = A / b`, `B' = B / b²`,
+`C' = C / b³`; positivity is what `ln` of the product needs -/
+theorem virial_units (K A B C a b n : ℝ) (hK : 0 < K) (ha : 0 < a) (hb : 0 < b) :
+    Virial_pressure (b * K / a) (A / b) (B / b ^ 2) (C / b ^ 3) (b * n) = a * Virial_pressure K A B C n := by
+  unfold Virial_pressure
+  have hl : Real.log (b * K / a) = Real.log b + Real.log K - Real.log a := by
+    rw [Real.log_div (mul_pos hb hK).ne' ha.ne', Real.log_mul hb.ne' hK.ne']
+  have e1 : A / b * (b * n) = A * n := by field_simp
+  have e2 : B / b ^ 2 * (b * n) ^ 2 = B * n ^ 2 := by field_simp
+  have e3 : C / b ^ 3 * (b * n) ^ 3 = C * n ^ 3 := by field_simp
+  rw [hl, e1, e2, e3]
+  have e4 : -(Real.log b + Real.log K - Real.log a) + A * n + B * n ^ 2 + C * n ^ 3
+      = (Real.log a - Real.log b) + (-Real.log K + A * n + B * n ^ 2 + C * n ^ 3) := by ring
+  rw [e4, Real.exp_add, Real.exp_sub, Real.exp_log ha, Real.exp_log hb]
+  field_simp
+
+/-- residual vectors under a change of units: if the transformed model `f'` satisfies `f' (a p) = b f p` (the
+`*_units` theorems), the residuals on the transformed data are `b` times the residuals on the original data.
+This is the hypothesis `hres` of `least_squares_covariance`. -/
+theorem residuals_units (f f' : ℝ → ℝ) (a b : ℝ) (h : ∀ p, f' (a * p) = b * f p) (data : List (ℝ × ℝ)) :
+    (data.map (fun d => (a * d.1, b * d.2))).map (fun d => f' d.1 - d.2)
+      = (data.map (fun d => f d.1 - d.2)).map (b * ·) := by
+  simp only [List.map_map]
+  apply List.map_congr_left
+  intro d _
+  simp only [Function.comp_apply, h, mul_sub]
+
+/-- instance: Langmuir residuals -/
+theorem langmuir_residuals_units (K n_m a b : ℝ) (ha : a ≠ 0) (data : List (ℝ × ℝ)) :
+    (data.map (fun d => (a * d.1, b * d.2))).map (fun d => Langmuir_loading (K / a) (b * n_m) d.1 - d.2)
+      = (data.map (fun d => Langmuir_loading K n_m d.1 - d.2)).map (b * ·) :=
+  residuals_units (Langmuir_loading K n_m) (Langmuir_loading (K / a) (b * n_m)) a b
+    (fun p => langmuir_units K n_m a b p ha) data
+
+end units
+
+section covariance
+variable {α : Type} [Field α] [LinearOrder α] [IsStrictOrderedRing α]
+
+omit [LinearOrder α] [IsStrictOrderedRing α] in
+/-- the objective in the new units is `b²` times the objective in the old units -/
+theorem sumSq_units {Θ Θ' : Type} (T : Θ → Θ') (res : Θ → List α) (res' : Θ' → List α) (b : α)
+    (hres : ∀ θ, res' (T θ) = (res θ).map (b * ·)) (θ : Θ) :
+    sumSq (res' (T θ)) = b * b * sumSq (res θ) := by
+  rw [hres, sumSq_map_mul]
+
+/-- least squares is covariant under a change of units: with `T` the (injective — in particular bijective) change of
+parameters and residuals multiplied by `b ≠ 0`, `θ*` minimises the objective over `S` iff `T θ*` minimises the
+transformed objective over `T '' S` -/
+theorem least_squares_covariance {Θ Θ' : Type} (T : Θ → Θ') (hT : Function.Injective T)
+    (res : Θ → List α) (res' : Θ' → List α) (b : α) (hb : b ≠ 0)
+    (hres : ∀ θ, res' (T θ) = (res θ).map (b * ·)) (S : Set Θ) (θs : Θ) :
+    (θs ∈ S ∧ ∀ θ ∈ S, sumSq (res θs) ≤ sumSq (res θ)) ↔
+      (T θs ∈ T '' S ∧ ∀ θ' ∈ T '' S, sumSq (res' (T θs)) ≤ sumSq (res' θ')) := by
+  have hbb : 0 < b * b := mul_self_pos.mpr hb
+  have key : ∀ θ, sumSq (res' (T θs)) ≤ sumSq (res' (T θ)) ↔ sumSq (res θs) ≤ sumSq (res θ) := by
+    intro θ
+    rw [sumSq_units T res res' b hres, sumSq_units T res res' b hres]
+    constructor
+    · exact fun h => le_of_mul_le_mul_left h hbb
+    · exact fun h => mul_le_mul_of_nonneg_left h hbb.le
+  constructor
+  · rintro ⟨hs, hmin⟩
+    refine ⟨⟨θs, hs, rfl⟩, ?_⟩
+    rintro θ' ⟨θ, hθ, rfl⟩
+    exact (key θ).mpr (hmin θ hθ)
+  · rintro ⟨⟨θ0, hθ0, he⟩, hmin⟩
+    have : θ0 = θs := hT he
+    subst this
+    exact ⟨hθ0, fun θ hθ => (key θ).mp (hmin (T θ) ⟨θ, hθ, rfl⟩)⟩
+
+/-- unconstrained version for a bijective change of parameters -/
+theorem least_squares_covariance_univ {Θ Θ' : Type} (T : Θ → Θ') (hT : Function.Bijective T)
+    (res : Θ → List α) (res' : Θ' → List α) (b : α) (hb : b ≠ 0)
+    (hres : ∀ θ, res' (T θ) = (res θ).map (b * ·)) (θs : Θ) :
+    (∀ θ, sumSq (res θs) ≤ sumSq (res θ)) ↔ (∀ θ', sumSq (res' (T θs)) ≤ sumSq (res' θ')) := by
+  have h := least_squares_covariance T hT.injective res res' b hb hres Set.univ θs
+  simp only [Set.mem_univ, true_and, forall_const, Set.image_univ, hT.surjective.range_eq] at h
+  exact h
+
+/-- consequently the fitted curves correspond: at corresponding optima the residual vector (fitted curve minus data)
+is the old one expressed in the new unit, and the reported (normalised) error is identical -/
+theorem fit_unit_change_same_curve_and_error {Θ Θ' : Type} (T : Θ → Θ')
+    (res : Θ → List α) (res' : Θ' → List α) (b : α) (hb : b ≠ 0)
+    (hres : ∀ θ, res' (T θ) = (res θ).map (b * ·)) (θs : Θ) (range : α) :
+    res' (T θs) = (res θs).map (b * ·) ∧ rmseSq (res' (T θs)) (b * range) = rmseSq (res θs) range := by
+  refine ⟨hres θs, ?_⟩
+  rw [hres, rmseSq_scale _ _ _ hb]
+
+/-- bounds are covariant too: scaling a parameter and its bounds by a positive unit factor preserves `inBounds` -/
+theorem inBounds_scale (lo hi : Option α) (v k : α) (hk : 0 < k) :
+    inBounds (lo.map (k * ·)) (hi.map (k * ·)) (k * v) ↔ inBounds lo hi v := by
+  unfold inBounds
+  cases lo <;> cases hi <;> simp [mul_le_mul_iff_of_pos_left hk]
+
+end covariance
+
+/-! ## F. non-vacuity -/
+
+section examples
+open PgVerif.Gen.R
+
+example : bestIdx ([3, 1, 2, 1] : List ℚ) = some 1 := by decide +kernel
+example : bestIdx ([5] : List ℚ) = some 0 := by decide +kernel
+example : bestIdx ([2, 2, 2] : List ℕ) = some 0 := by decide +kernel
+example : bestIdx ([4, 3, 2, 1] : List ℕ) = some 3 := by decide +kernel
+example : bestIdx ([] : List ℚ) = none := rfl
+
+example : clamp (some (0 : ℚ)) none (-3) = 0 := by decide +kernel
+example : clamp (some (0 : ℚ)) (some 1) 7 = 1 := by decide +kernel
+example : clamp (some (0 : ℚ)) (some 1) (1 / 2) = 1 / 2 := by decide +kernel
+example : clamp (none : Option ℚ) none 42 = 42 := by decide +kernel
+example : clampGuess [(some (0 : ℚ), none), (some 0, some 1)] [-1, 5] = [0, 1] := by decide +kernel
+/-- inconsistent bounds (`lo > hi`) really break `clamp_inBounds`: the guard is necessary -/
+example : ¬ inBounds (some (2 : ℚ)) (some 1) (clamp (some 2) (some 1) 0) := by
+  unfold inBounds; decide +kernel
+
+example : selectBranch [("a", 0), ("b", 1), ("c", 0)] 0 = ["a", "c"] := by decide
+example : selectBranch [("a", 0), ("b", 1), ("c", 0)] 1 = ["b"] := by decide
+
+example : rmseSq ([1, -1] : List ℚ) 2 = 1 / 4 := by norm_num [rmseSq, mse, sumSq]
+example : rmseSq (([1, -1] : List ℚ).map (3 * ·)) (3 * 2) = 1 / 4 := by norm_num [rmseSq, mse, sumSq]
+example : rmseSq ([0, 0, 0] : List ℚ) 5 = 0 := by norm_num [rmseSq, mse, sumSq]
+/-- without the guard `rs ≠ []` the "zero error" clause would be vacuous: the empty fit reports 0 -/
+example : rmseSq ([] : List ℚ) 5 = 0 := by norm_num [rmseSq, mse, sumSq]
+
+/-- a concrete unit change: Langmuir `K = 2 /bar`, `n_m = 3 mmol/g` at `p = 1 bar` gives 2 mmol/g; in kPa (`a = 100`)
+and mol/kg→cm³/g-like factor `b = 22` the transformed parameters give `22·2 = 44` -/
+example : Langmuir_loading 2 3 1 = 2 := by unfold Langmuir_loading; norm_num
+example : Langmuir_loading (2 / 100) (22 * 3) (100 * 1) = 44 := by unfold Langmuir_loading; norm_num
+example : Langmuir_loading (2 / 100) (22 * 3) (100 * 1) = 22 * Langmuir_loading 2 3 1 :=
+  langmuir_units 2 3 100 22 1 (by norm_num)
+
+end examples
 
 end PgVerif.Props.C12
